@@ -243,7 +243,7 @@ def plan(ck, kind):
                                    [i * per, per, SPINS[i % 3], SPURS[(i // 3 + i) % 3], 0], timeout=600 if quick else 2400))
     # ---- Miri ------------------------------------------------------------------------------------
     # every (program group, interpreter seed) pair gets its own flag combination, rotating through all values
-    ngroups, gsize, nseeds = (5, 8, 8) if quick else (48, 8, 18)
+    ngroups, gsize, nseeds = (5, 8, 12) if quick else (48, 8, 18)
     for g in range(ngroups):
         for sd in range(nseeds):
             k = g * nseeds + sd + ck.seed % 7
